@@ -60,7 +60,7 @@ def generate(tier, rng):
         for a, b in (wins if tier != "quick" else rng.sample(wins, min(len(wins), 25))):
             cases.append({"op": "pcrop", "tier": t, "a": a, "b": b, "mode": "lax", "rebase": (a + b) % 2 == 0,
                           "scale": ["dyadic", 1]})
-    ntg = 250 if tier == "quick" else 5000
+    ntg = 500 if tier == "quick" else 6000
     for _ in range(ntg):
         tiers = []
         for k in range(rng.randint(1, 4)):
